@@ -63,7 +63,7 @@ CHECKS["C07"] = dict(
 CHECKS["C14"] = dict(
     level="exploration", design="DESIGN.md 3/C14",
     technique="mutation-based fuzzing of Sierra programs (enumerated single-point mutants + proptest multi-point mutants + mutated felt serialisations) through registry / metadata / compile in crash-isolated workers; oracle: every entry point returns (no panic, abort or runaway)",
-    text="~575k mutants per quick run: single-point mutations of every corpus Sierra program <= 400 statements (thinned cross products; complete in thorough), libfunc instantiations (every generic libfunc of the corpus with 1-3 type arguments over a pool of 28 boundary types), multi-point mutants and format-aware felt vectors (compressed layer, value stream, whole vector) through extract_sierra_program; stages ProgramRegistryInfo::new, calc_metadata (linear, non-linear on small programs), calc_metadata_ap_change_only, compile with and without gas checks. Panics are keyed by call site; listed panic sites are reported as KNOWN-FINDING and the search continues past them.",
+    text="~575k mutants per quick run: single-point mutations of every corpus Sierra program <= 400 statements (thinned cross products; thorough: complete for programs <= 1,000 statements, every 40th element for the few larger ones), libfunc instantiations (every generic libfunc of the corpus with 1-3 type arguments over a pool of 28 boundary types), multi-point mutants and format-aware felt vectors (compressed layer, value stream, whole vector) through extract_sierra_program; stages ProgramRegistryInfo::new, calc_metadata (linear, non-linear on small programs), calc_metadata_ap_change_only, compile with and without gas checks. Panics are keyed by call site; listed panic sites are reported as KNOWN-FINDING and the search continues past them.",
     note="Trusted: catch_unwind + subprocess isolation, 8 MiB stacks, 16 GiB address-space limit. One known shape (type-declaration cycle through a circuit gate: unbounded recursion) is excluded by construction and counted. Only programs that parse are mutated (the text parser is C18's).")
 CHECKS["C15"] = dict(
     level="exploration", design="DESIGN.md 3/C15",
